@@ -352,6 +352,8 @@ class MTCoherenceAnalyzer(BaseAnalyzer):
         coh_mat = np.zeros((nrows, nrows, self._L), 'd')
 
         for i in range(self.input.data.shape[0]):
+            # The coherence of each channel with itself:
+            coh_mat[i, i] = 1
             for j in range(i):
                 sxy = tsa.mtm_cross_spectrum(self.spectra[i], self.spectra[j],
                                            (self.weights[i], self.weights[j]),
